@@ -624,6 +624,14 @@ func (w *worker) check(j *job) {
 	} else {
 		rep.Count("wt:1")
 	}
+	if specOK {
+		// the checker whose success implies the refinement theorem for this function (frontcf_refines_validated)
+		if a := w.ask("c01frontcf validate " + text); a != "1" {
+			violate("correspondence", "C01:frontcf-validate-rejects", "FrontendCFCheck.validate rejects the model's lowering of a well-typed function: the refinement theorem does not apply to it", "1", a)
+		} else {
+			rep.Count("validate:1")
+		}
+	}
 	if a := w.ask("c01frontcf wf " + text); a != "1" {
 		violate("correspondence", "C01:frontcf-output-not-wellFormed", "SsaPass.wellFormed rejects the model's lowering of a valid function", "1", a)
 	} else {
